@@ -64,6 +64,8 @@ def gen_case(tape, tier):
         "n_pairs": 60 if tier == "thorough" else 12,
         "max_plans": 120 if tier == "quick" else 400,
     }
+    cfg["reorder_inputs"] = bool(tape.coin(0.3, "reorder-inputs"))
+    cfg["peek"] = bool(tape.coin(0.2, "peek"))
     axes = sorted(a for a, n in w["indices"].items() if n > 1)
     if axes and tape.coin(0.12, "fixed-indices"):
         # every attempt (and the reference) is the same map restricted to part of one axis; requests the tree
@@ -276,6 +278,8 @@ def run_attempt(w, cfg, root, tape, *, attempt, cleanup, interruption=None, inpu
             inputs = build_inputs(w)
             if inputs_variant:
                 inputs = _variant_inputs(w, inputs)
+            if cfg.get("reorder_inputs") and attempt > 0:
+                inputs = dict(reversed(list(inputs.items())))  # the same inputs, written down in another order
             executor, parallel = C.make_executor(sim, cfg["executor"])
             k = sim.kernel
 
@@ -311,6 +315,34 @@ def run_attempt(w, cfg, root, tape, *, attempt, cleanup, interruption=None, inpu
     at.digest = sim.kernel.digest()
     at.steps = sim.kernel.steps
     return at
+
+
+def _peek(root, folder, info):
+    """Between the interruption and the resume somebody looks at the partial run - through a relative path, from
+    inside the scratch directory - and the working directory is another one afterwards.  Reading must not change
+    what the resume finds."""
+    from pipefunc.map import RunInfo, load_outputs
+
+    sim = C.new_sim(Tape(recorded=[]), root, preempt=0.0)
+
+    def look():
+        os.chdir(root)
+        try:
+            ri = RunInfo.load(os.path.relpath(folder))
+            for o in sorted(ri.all_output_names)[:1]:
+                load_outputs(o, run_folder=os.path.relpath(folder))
+            info["probes"]["peeked_at_partial_run"] = info["probes"].get("peeked_at_partial_run", 0) + 1
+        except Exception:  # noqa: BLE001 - nothing loadable there yet (or a partial array): not the reader's problem
+            pass
+        other = os.path.join(root, "elsewhere")
+        os.makedirs(other, exist_ok=True)
+        os.chdir(other)
+
+    try:
+        with sim:
+            sim.kernel.run(look)
+    finally:
+        simmanager.shutdown_all(sim)
 
 
 def _drain(k, fs):
@@ -351,6 +383,14 @@ def _variant_inputs(w, inputs):
 
 # ------------------------------------------------------------------ one plan
 def run_plan(w, cfg, plan, ref, tape, *, seen_digests=None):
+    cwd = os.getcwd()
+    try:
+        return _run_plan(w, cfg, plan, ref, tape, seen_digests=seen_digests)
+    finally:
+        os.chdir(cwd)  # a reader between the attempts may have moved into the plan's scratch directory
+
+
+def _run_plan(w, cfg, plan, ref, tape, *, seen_digests=None):
     """Execute interruptions then a fault-free resume.  Returns (violations, info)."""
     viol = []
     info = {"probes": {}, "skipped": False, "tree_digests": [], "yields": 0}
@@ -403,6 +443,8 @@ def run_plan(w, cfg, plan, ref, tape, *, seen_digests=None):
                     last_ev = a.trace[-1]
                     it["hit"] = ("torn-" if it.get("torn") and last_ev[1] == "write" else "") + f"{last_ev[1]}:{file_class(last_ev[2])}"
                     it["phase"] = "run" if any(e[1] in ("mkdir", "open", "write", "replace") for e in a.trace[:-1]) else "cleanup"
+                if cfg.get("peek"):
+                    _peek(root, folder, info)
                 td = simfs.tree_digest(root)
                 info["tree_digests"].append(td)
                 stored_sets.append(stored_elements(folder, w, ref))
@@ -513,6 +555,14 @@ def file_class(rel):
 
 # ------------------------------------------------------------------ entry points
 def run_case(case, exec_seed=None, exec_tape=None):
+    cwd = os.getcwd()
+    try:
+        return _run_case(case, exec_seed, exec_tape)
+    finally:
+        os.chdir(cwd)  # readers between attempts move the working directory
+
+
+def _run_case(case, exec_seed=None, exec_tape=None):
     C.begin_case()
     w, cfg = case["workload"], case["config"]
     out = {"violations": [], "probes": {}, "nontrivial": [], "evaluations": 0, "yields": 0, "sim_time": 0.0}
@@ -615,6 +665,8 @@ def run_case(case, exec_seed=None, exec_tape=None):
         probes["preexisting_folder"] = 1
     if cfg.get("fixed"):
         probes["fixed_indices"] = 1
+    if cfg.get("reorder_inputs"):
+        probes["inputs_reordered_on_resume"] = 1
     out["probes"] = probes
     out["nontrivial"] = sorted(nontrivial)
     out["exec_tape"] = []
